@@ -254,6 +254,14 @@ pub fn codec_spec(cd: Codec) -> Spec {
                 }
             }
         }
+        // v=4 (coverage audit): EVERY byte value 0..=255 at every symbol position of a short text of otherwise valid
+        // symbols (the class representatives of v=2 are interior points: '/' ':' '@' 'G' '`' 'g', 'A'/'F'/'a'/'f'/'0'/'9'
+        // and the neighbours of the Base64 alphabet ranges are only reached here)
+        for x in 0..=255u32 {
+            if !out(Case { v: 4, k: x, ..Default::default() }) {
+                return;
+            }
+        }
     };
     let run = move |case: &Case| -> Outcome {
         let check_enc = |input: &[u8]| -> Option<Outcome> {
@@ -339,6 +347,29 @@ pub fn codec_spec(cd: Codec) -> Spec {
                 });
                 res.unwrap_or_else(|| Outcome::pass(&format!("dec/strict{}/lenient{}/malformed{}", ok.min(1), lenient.min(1), malformed.min(1))))
             }
+            4 => {
+                let x = case.k as u8;
+                let filler = cd.dec_alphabet[0][0];
+                let (mut ok, mut lenient, mut malformed) = (0u32, 0u32, 0u32);
+                for l in 1..=4usize {
+                    for pos in 0..l {
+                        for pads in 0..=2usize {
+                            let mut text = vec![filler; l];
+                            text[pos] = x;
+                            text.extend(std::iter::repeat(b'=').take(pads));
+                            match (cd.ref_dec)(&text) {
+                                RefDec::Strict(_) => ok += 1,
+                                RefDec::Lenient(_) => lenient += 1,
+                                RefDec::Malformed => malformed += 1,
+                            }
+                            if let Some(o) = check_dec(&text) {
+                                return o;
+                            }
+                        }
+                    }
+                }
+                Outcome::pass(&format!("dec_every_byte/strict{}/lenient{}/malformed{}", ok.min(1), lenient.min(1), malformed.min(1)))
+            }
             _ => {
                 let n = case.n as usize;
                 let data = content(case.c, n);
@@ -366,7 +397,7 @@ pub fn codec_spec(cd: Codec) -> Spec {
     };
     Spec {
         name,
-        space: format!("codec: encode of ALL inputs of length <= 2 over 256 byte values and <= 6 over {{00,FF,14,FB}}, each followed by decode(encode(x))==x through every decode entry point; decode of ALL strings of <= 4 symbols over {nalpha} class representatives (incl. '=', space, NUL, U+0080 and raw 0x80 where the entry point takes bytes); every length 0..=260 x contents {{ascending, >=0x80, embedded NUL}} encode + decode of the encoding with '!' at positions 0, mid, last; oracle: RFC 4648 / hex definition (canonical -> exact bytes; non-canonical padding or trailing bits -> Err or the same bytes; anything else -> Err)"),
+        space: format!("codec: encode of ALL inputs of length <= 2 over 256 byte values and <= 6 over {{00,FF,14,FB}}, each followed by decode(encode(x))==x through every decode entry point; decode of ALL strings of <= 4 symbols over {nalpha} class representatives (incl. '=', space, NUL, U+0080 and raw 0x80 where the entry point takes bytes); every length 0..=260 x contents {{ascending, >=0x80, embedded NUL}} encode + decode of the encoding with '!' at positions 0, mid, last; decode of EVERY byte value 0..=255 at every position of texts of 1..=4 otherwise valid symbols followed by 0..=2 '='; oracle: RFC 4648 / hex definition (canonical -> exact bytes; non-canonical padding or trailing bits -> Err or the same bytes; anything else -> Err)"),
         gen: Box::new(gen),
         run: Box::new(run),
         isolate: false,
